@@ -50,7 +50,7 @@ func genWithRefusals(t *rapid.T) vh.ShimCase {
 		nb := rapid.IntRange(1, 5).Draw(t, "episodeN")
 		for b := 0; b < nb; b++ {
 			l := fmt.Sprintf("ep%d", b)
-			k := rapid.SampledFrom([]string{"addkey", "addcert", "addhard", "addhard", "remove", "remove", "removeall", "list", "signers", "sign", "lock", "close", "rawunlock", "rawunlock"}).Draw(t, l)
+			k := rapid.SampledFrom([]string{"addkey", "addcert", "addhard", "addhard", "remove", "remove", "removeall", "list", "signers", "sign", "lock", "close", "rawunlock", "rawunlock", "rawsmartcard"}).Draw(t, l)
 			op := vh.Op{Kind: k, Cert: -1}
 			switch k {
 			case "rawunlock":
@@ -62,6 +62,10 @@ func genWithRefusals(t *rapid.T) vh.ShimCase {
 				if rapid.IntRange(0, 3).Draw(t, l+"RawShort") == 0 {
 					op.Body = []byte{code} // malformed: refused as well
 				}
+			case "rawsmartcard":
+				// smartcard requests (add / remove a card's keys) relayed by Forward: the locked underlying agent refuses them
+				code := rapid.SampledFrom([]byte{21, 20, 26}).Draw(t, l+"SCCode")
+				op = vh.Op{Kind: "forward", Cert: -1, Body: []byte{code, 0, 0, 0, 1, 'r', 0, 0, 0, 0}}
 			case "addkey":
 				op.Key = rapid.SampledFrom(vh.SSHKeyNames).Draw(t, l+"Key")
 			case "addcert", "addhard":
@@ -120,7 +124,7 @@ func genWithRefusals(t *rapid.T) vh.ShimCase {
 	return c
 }
 
-const rule = "histories of 1..30 operations interleaving lock / unlock (right, wrong, empty, 300-byte and near-miss passphrases) / close with add, add-hardware-certificate, remove, remove-all, list, signers, sign and out-of-band keyring edits, starting from 0..6 underlying identities and hardware certificates; in a third of the histories the underlying agent refuses individual lock / unlock requests (fault plan on that request kind: a failure reply, or a reply the client cannot decode - malformed or empty); in a fifth of the lock episodes a failure of another request kind (list, remove, sign) is pending while the right passphrase is given; in a quarter the underlying agent keeps listing its identities while locked; sometimes it loses its lock behind the shim's back and then refuses every unlock. Inside the lock episodes raw unlock requests that the underlying agent refuses (a passphrase no lock uses, malformed) are also relayed through Forward: a refused request changes nothing. Certificates are current or forever so time cannot interfere. Oracle: model with a locked flag: while locked, list = empty without error, every other listed operation errs, the keyring is unchanged (observed directly) and after the right passphrase the view equals the model's pre-lock view; wrong passphrase => error and still locked; unlock when unlocked => error; a refused lock / unlock leaves the behaviour unchanged (probed by the following operations). Non-trivial: at least one mutating operation attempted while locked and a later successful unlock."
+const rule = "histories of 1..30 operations interleaving lock / unlock (right, wrong, empty, 300-byte and near-miss passphrases) / close with add, add-hardware-certificate, remove, remove-all, list, signers, sign and out-of-band keyring edits, starting from 0..6 underlying identities and hardware certificates; in a third of the histories the underlying agent refuses individual lock / unlock requests (fault plan on that request kind: a failure reply, or a reply the client cannot decode - malformed or empty); in a fifth of the lock episodes a failure of another request kind (list, remove, sign) is pending while the right passphrase is given; in a quarter the underlying agent keeps listing its identities while locked; sometimes it loses its lock behind the shim's back and then refuses every unlock. Inside the lock episodes raw unlock requests that the underlying agent refuses (a passphrase no lock uses, malformed) and smartcard requests (add / remove a card's keys) are also relayed through Forward: a refused request changes nothing. Certificates are current or forever so time cannot interfere. Oracle: model with a locked flag: while locked, list = empty without error, every other listed operation errs, the keyring is unchanged (observed directly) and after the right passphrase the view equals the model's pre-lock view; wrong passphrase => error and still locked; unlock when unlocked => error; a refused lock / unlock leaves the behaviour unchanged (probed by the following operations). Non-trivial: at least one mutating operation attempted while locked and a later successful unlock."
 
 // TestC08Slow: the same histories with an underlying agent that takes seconds to answer the first
 // lock, unlock, list or sign request (a passphrase prompt, a token waiting for a touch). Slowness is
